@@ -324,7 +324,11 @@ def classes (ds : List Series) (q : Query) (sel : List (Series × List (Nat × N
     | none => []
     | some a =>
       (if a.mode != .none && sel.any (fun (s, _) => (groupKey a s).isEmpty) then ["empty-group-key"] else [])
-  c1 ++ c2 ++ c3 ++ c3b ++ c4 ++ c5 ++ c6 ++ c6b ++ c6c ++ c6d ++ c6e ++ c6f ++ c7
+  -- an AGGREGATION over a series with a label value that contains '{': the results layer takes everything up to the LAST
+  -- single '{' … i.e. splits the id on every '{' (ExtractMetricNameFromGroupID) and, with more than one, takes the whole id
+  -- for the metric name: the group ids are garbled (kernel finding promql-group/value-contains-separator, end to end)
+  let c8 := if q.agg.isSome && sel.any (fun (s, _) => s.labels.any (fun kv => kv.2.contains '{')) then ["agg-value-has-brace"] else []
+  c1 ++ c2 ++ c3 ++ c3b ++ c4 ++ c5 ++ c6 ++ c6b ++ c6c ++ c6d ++ c6e ++ c6f ++ c7 ++ c8
 
 def isSmallInt (q : Rat) : Bool := q.den == 1 && q.num.natAbs < pow2 40
 
@@ -338,5 +342,139 @@ def latitude (q : Query) (sel : List (Series × List (Nat × Nat))) : List Strin
                 then ["inexact-sum"] else []
     | none => []
   l1 ++ l2
+
+/-! ### binary operators between two instant vectors (C09 "arithmetic between vectors matches label sets")
+
+PromQL, default matching (no on()/ignoring()): an element of the left vector and an element of the right vector match
+iff their label sets are EQUAL once the metric name is dropped (one-to-one); evaluated per timestamp.  An operand is a
+selector or one aggregation over a selector (a regex on `__name__` is outside: two elements of one operand could then
+share a label set).  Label sets are compared literally, empty values included (the identity convention of the header).
+
+What is JUDGED (everything else is declared latitude, `BinPt.open`):
+  * arithmetic (+ - * / % ^), comparisons (filter or `bool`) and `and`: a result element exists only for a label set
+    that occurs on BOTH sides; at a timestamp at which both matched elements have a sample the value is x ∘ y
+    (comparison filter: x if the comparison holds, nothing otherwise; bool: 1 / 0; and: x);
+  * `unless`: the left elements whose label set does not occur on the right, with all their samples;
+  * `or`: all left elements with all their samples, plus the right elements whose label set does not occur on the left.
+  Not judged: a timestamp at which only ONE of two matched elements has a sample (the engine has no staleness /
+  lookback: it reads the missing right sample as 0, and decides and / or / unless per series, not per timestamp);
+  division and modulo by zero, `^` outside exponents 0..4 / |base| ≤ 8192, non-integer or large operands (float64
+  rounding is not modelled).  The metric name of a result element is never compared. -/
+
+inductive BinOp where
+  | add | sub | mul | div | mod | pow | eq | ne | gt | lt | ge | le | and | or | unless
+deriving Repr, DecidableEq
+
+structure Operand where
+  matchers : List Matcher
+  agg : Option Agg
+deriving Repr
+
+structure BinQuery where
+  start : Nat
+  end_ : Nat
+  op : BinOp
+  retBool : Bool
+  lhs : Operand
+  rhs : Operand
+deriving Repr
+
+/-- an instant-vector element: label set without the metric name (sorted), samples by time -/
+abbrev Elem := List (String × String) × List (Nat × Rat)
+
+def Operand.query (o : Operand) (q : BinQuery) : Query := { start := q.start, end_ := q.end_, matchers := o.matchers, agg := o.agg }
+
+def Operand.nameRegex (o : Operand) : Bool := o.matchers.any (fun m => m.label == "__name__" && (m.op == .re || m.op == .nre))
+
+/-- the vector an operand denotes; `none` = undefined (non-finite value, regex on the name) -/
+def evalOperand (ds : List Series) (q : BinQuery) (o : Operand) : Option (List Elem) :=
+  if o.nameRegex then none else
+  let sel := selected ds (o.query q)
+  match o.agg with
+  | some a => aggregated a sel
+  | none => sel.mapM (fun (s, ps) => (ps.mapM (fun p => (bitsToRat? p.2).map (fun v => (p.1, v)))).map (fun ps => (sortLabels s.labels, ps)))
+
+inductive BinPt where
+  | val (v : Rat)
+  | open           -- declared latitude: not judged
+deriving Repr
+
+def ratIsInt (q : Rat) : Bool := q.den == 1 && q.num.natAbs < pow2 20
+
+/-- x ∘ y at a timestamp where both elements have a sample: `none` = no result sample there -/
+def applyOp (op : BinOp) (retBool : Bool) (x y : Rat) : Option BinPt :=
+  let cmp (b : Bool) : Option BinPt := if retBool then some (.val (if b then 1 else 0)) else (if b then some (.val x) else none)
+  if !(ratIsInt x && ratIsInt y) then some .open else
+  match op with
+  | .add => some (.val (x + y))
+  | .sub => some (.val (x - y))
+  | .mul => some (.val (x * y))
+  | .div => if y == 0 then some .open else some (.val (x / y))
+  | .mod => if y == 0 then some .open else some (.val ((Int.tmod x.num y.num : Int) : Rat))
+  | .pow => if 0 ≤ y.num && y.num ≤ 4 && x.num.natAbs ≤ 8192 then some (.val ((x.num ^ y.num.toNat : Int) : Rat)) else some .open
+  | .eq => cmp (x == y)
+  | .ne => cmp (x != y)
+  | .gt => cmp (x > y)
+  | .lt => cmp (x < y)
+  | .ge => cmp (x ≥ y)
+  | .le => cmp (x ≤ y)
+  | .and | .or | .unless => some (.val x)
+
+def findElem (v : List Elem) (ls : List (String × String)) : Option Elem := v.find? (·.1 == ls)
+
+/-- samples of a left element `x` that has the partner `y` -/
+def matchedPts (op : BinOp) (retBool : Bool) (x y : Elem) : List (Nat × BinPt) :=
+  match op with
+  | .unless => x.2.filterMap (fun (t, _) => if (y.2.any (·.1 == t)) then none else some (t, BinPt.open))
+  | .or => x.2.map (fun (t, vx) => (t, BinPt.val vx)) ++
+           (y.2.filter (fun (t, _) => !(x.2.any (·.1 == t)))).map (fun (t, _) => (t, BinPt.open))
+  | _ => x.2.filterMap (fun (t, vx) => match y.2.find? (·.1 == t) with
+      | some (_, vy) => (applyOp op retBool vx vy).map (fun p => (t, p))
+      | none => some (t, .open))
+
+def allVals (x : Elem) : List (Nat × BinPt) := x.2.map (fun (t, v) => (t, BinPt.val v))
+
+/-- what a left element contributes: with a partner its matched samples; without one it is kept by or / unless only -/
+def leftEntry (op : BinOp) (retBool : Bool) (r : List Elem) (x : Elem) : Option (List (String × String) × List (Nat × BinPt)) :=
+  match findElem r x.1 with
+  | some y => some (x.1, matchedPts op retBool x y)
+  | none => if op == .unless || op == .or then some (x.1, allVals x) else none
+
+/-- the result vector: label set → (timestamp → judged value | open) -/
+def evalBin (op : BinOp) (retBool : Bool) (l r : List Elem) : List (List (String × String) × List (Nat × BinPt)) :=
+  l.filterMap (leftEntry op retBool r) ++
+  (if op == .or then (r.filter (fun y => (findElem l y.1).isNone)).map (fun y => (y.1, allVals y)) else [])
+
+/-- the order in which the engine writes the label keys of a series into its id: the keys with a (non-name) value
+    matcher first, then the others, each part sorted (structs.ReorderTagFilters: value filters before the key=* filters);
+    an aggregation rebuilds the id from the sorted grouping fields -/
+def Operand.idKeyOrder (o : Operand) (ls : List (String × String)) : List String :=
+  let ks := (sortLabels ls).map (·.1)
+  match o.agg with
+  | some _ => ks
+  | none =>
+    let mk := (o.matchers.filter (·.label != "__name__")).map (·.label)
+    ks.filter (mk.contains ·) ++ ks.filter (!mk.contains ·)
+
+/-- class `binop-label-order`: some element's label keys are written in different orders by the two operands (the
+    engine compares the id STRINGS, so such an element never finds its partner) -/
+def binopLabelOrder (q : BinQuery) (l r : List Elem) : Bool :=
+  (l ++ r).any (fun e => q.lhs.idKeyOrder e.1 != q.rhs.idKeyOrder e.1)
+
+/-- an aggregation `by (…)` (or without clause) rebuilds the id WITHOUT a comma after the last label (getAggSeriesId),
+    every other id ends with one -/
+def Operand.idEndsWithComma (o : Operand) : Bool :=
+  match o.agg with
+  | some a => a.mode == .without
+  | none => true
+
+/-- class `binop-trailing-comma`: one operand writes its ids with a comma after the last label and the other one does
+    not (`sum by (k) (a) / b`): an element with a non-empty label set never finds its partner -/
+def binopTrailingComma (q : BinQuery) (l r : List Elem) : Bool :=
+  q.lhs.idEndsWithComma != q.rhs.idEndsWithComma && (l ++ r).any (fun e => !e.1.isEmpty)
+
+def hasDupLabels : List (List (String × String)) → Bool
+  | [] => false
+  | x :: r => r.contains x || hasDupLabels r
 
 end SigModel.Spec.Metrics
